@@ -123,7 +123,8 @@ fn exec_udp_packet_view_mut(view: &mut ScionUdpPacketView) {
         payload::udp::exec_every_view_function_ref(udp);
     }
 
-    let raw = view.as_raw_mut();
+    // Safety: we don't mutate in a way that invalidates the view.
+    let raw = unsafe { view.as_raw_mut() };
     touch_slice_bounds(raw.payload_mut());
 }
 
